@@ -200,6 +200,16 @@ def run(repo='/repo', tier='quick'):
         w = P.field_writes(tf, cnt)
         okw = len(w) == 1 and w[0][2].get('op') == '+=' and P.K(w[0][2]['r']) == tf.params[1]['name']
         res.check(okw, 'C09.e', track + ':adds-len', '%s += %s' % (cnt, tf.params[1]['name']), 'byte counter is not incremented by the length argument exactly once', tf.loc)
+        # ... on every path of the tracker except the one that has no connection to count on
+        nb, badt = 0, None
+        for atoms, events, end, seq in P.enum_paths_seq(tf, (tf.entry, -1)):
+            nb += 1
+            counted = any(x[0] == 'stmt' and P.assigns_field(x[3], cnt) for x in seq)
+            noconn = any(a == (tf.params[0]['name'], '==', '0') for a, bb in atoms)
+            if not counted and not noconn:
+                badt = [a for a, bb in atoms]
+        res.check(badt is None and nb > 0, 'C09.e', track + ':counts-on-every-path', 'every path with a connection adds the length',
+                  '%s returns without counting on a path that has a connection (%s): chunks offered under that condition are missing from %s' % (track, badt, cnt), tf.loc)
         others = [(n, x) for n, f in db.fn.items() if n != track for b_, i_, x in P.field_writes(f, cnt)]
         res.check(not others, 'C09.e', cnt + ':single-writer', 'only %s writes %s' % (track, cnt),
                   '%s is also written in %s' % (cnt, ', '.join(n for n, x in others)), others[0][1]['loc'] if others else '')
@@ -368,6 +378,8 @@ def c09f(db, res):
                     res.holds('C09.f', key, 'guarded against overwriting a final state', x['loc'])
                 else:
                     missing = [s for s, ok in (('HTP_STREAM_ERROR', ne), ('HTP_STREAM_STOP', ns)) if not ok]
+                    # the instance names what is not tested, so that a recorded "STOP is not tested" does not cover a later "nothing is tested"
+                    key += ':unguarded-against:' + '+'.join(m.replace('HTP_STREAM_', '') for m in missing)
                     res.violated('C09.f', key, '%s overwrites %s without testing it against %s: a direction that reported %s is revived and later calls run parsing callbacks again'
                                  % (name, key_l, ' / '.join(missing), ' / '.join(m.replace('HTP_STREAM_', '') for m in missing)), x['loc'])
     res.floor('C09.f', 'status writes outside the owning direction', n, 4)
